@@ -6,9 +6,8 @@ import F1Verif.Generated.Facts
 import F1Verif.Expected
 namespace F1.Props.FactsC01
 
-theorem fact_average_Add : F1.Generated.skel_average_Add = F1.Expected.skel_average_Add := by rfl
-theorem fact_average_drain : F1.Generated.skel_average_drain = F1.Expected.skel_average_drain := by rfl
-theorem fact_average_Update : F1.Generated.skel_average_Update = F1.Expected.skel_average_Update := by rfl
+-- (average_Add, average_drain, average_Update, average_Reset: re-proved semantically on the regenerated MiniGo programs, see Props/Refine*.lean)
+
 theorem fact_average_CollectLifetime : F1.Generated.skel_average_CollectLifetime = F1.Expected.skel_average_CollectLifetime := by rfl
 theorem fact_average_Record : F1.Generated.skel_average_Record = F1.Expected.skel_average_Record := by rfl
 theorem fact_stats_Record : F1.Generated.skel_stats_Record = F1.Expected.skel_stats_Record := by rfl
@@ -23,7 +22,6 @@ theorem fact_result_Snapshot : F1.Generated.skel_result_Snapshot = F1.Expected.s
 theorem fact_result_New : F1.Generated.skel_result_New = F1.Expected.skel_result_New := by rfl
 theorem fact_snapshot_Iterations : F1.Generated.skel_snapshot_Iterations = F1.Expected.skel_snapshot_Iterations := by rfl
 theorem fact_snapshot_IterationsStarted : F1.Generated.skel_snapshot_IterationsStarted = F1.Expected.skel_snapshot_IterationsStarted := by rfl
-theorem fact_average_Reset : F1.Generated.skel_average_Reset = F1.Expected.skel_average_Reset := by rfl
 theorem fact_metrics_Reset : F1.Generated.skel_metrics_Reset = F1.Expected.skel_metrics_Reset := by rfl
 
 end F1.Props.FactsC01
